@@ -2298,11 +2298,20 @@ public:
         total.detail = std::string("number of builds differs between ") + xn + " and " + yn;
         return;
       }
+      bool stoppedEarly = false;
       for (size_t i = 0; i < x.summaries.size(); i++) {
         const auto& p = x.summaries[i];
         const auto& q = y.summaries[i];
+        // After a build that stopped early the engine that ran it is more pessimistic than the database (it forgets what the
+        // cancelled tasks had, the database keeps their older results): from then on the two may legitimately differ in what
+        // they execute and why - not in what they return.
+        if (p.cancelled || q.cancelled || p.cycle || q.cycle || p.error || q.error) stoppedEarly = true;
+        // a cancellation is placed by counting engine callbacks, and a restart adds callbacks: it may land in one variant and
+        // come too late in the other - the cancelled build itself is not compared, what follows it is
+        if (p.cancelled || q.cancelled) continue;
         std::string what;
         if (p.ok != q.ok || p.result != q.result) what = "result";
+        else if (stoppedEarly) what = "";
         else if (p.executed != q.executed) what = "set of executed rules";
         else if (p.reason != q.reason) what = "reported reasons";
         else if (p.evhash != q.evhash) what = "sequence of engine callbacks (scan/request order)";
@@ -2512,6 +2521,10 @@ EngineFeatures featuresFor(const std::string& property, const runner::GenOptions
     f.numericKeys = true;
     f.clientVersions = true;
     f.lockout = true;
+    // "all histories" includes builds that stop early: what such a build leaves in the database must serve a new engine
+    // exactly as the engine that ran it is served by its memory
+    f.cancel = true;
+    f.cancelPermille = 80;
   } else if (property == "C04") {
     f.dbPermille = 1000;
   } else if (property == "C05") {
